@@ -70,13 +70,15 @@ CHECKS['C03'] = {
 
 CHECKS['C04'] = {
     'level': 'other',
-    'technique': 'bounded stand-in: run-time contract (collapse of the arg-max path) on the real torch/numpy decoders, exhaustive over all arg-max paths of stated shapes',
-    'text': ('BOUNDED, not proved: greedy_decode_ctc, PytorchEngineLineOCR.run_ocr (stub network) and GreedyDecoder equal the CTC collapse of the '
-             'arg-max path for every arg-max path T<=5 (3 classes) / T<=3 (4 classes) in three score styles incl. exact ties, and for all batches of '
-             'two paths T<=3; both decoders agree row by row.'),
-    'note': 'Trusted: A3 arg-max = first maximiser in numpy and torch; torch tensor code is outside the VC generator, hence no unbounded claim; 2-D input branch not covered.',
+    'technique': ('hybrid: deductive proof (own VC generator + z3) of the engine-side batched greedy decoder greedy_decode_ctc for all tensor shapes; '
+                  'bounded run-time contract (collapse of the arg-max path) on the real torch/numpy decoders, exhaustive over all arg-max paths of stated shapes'),
+    'text': ('PROVED for all N x C x T score tensors: in greedy_decode_ctc the symbol matrix entry (n,t) is the first arg-max class of frame t of line n iff it '
+             'is not blank and differs from the previous frame\'s arg-max, else -1 (prepended frame / shifted class ids / masks verified), so every line of every '
+             'batch yields the collapse of its arg-max path.  BOUNDED, not proved: greedy_decode_ctc, PytorchEngineLineOCR.run_ocr (stub network) and '
+             'GreedyDecoder equal the CTC collapse of the arg-max path for every arg-max path T<=5 (3 classes) / T<=3 (4 classes) in three score styles incl. '
+             'exact ties, and for all batches of two paths T<=3; both decoders agree row by row.'),
+    'note': 'Trusted: pyvc; torch operations modelled as numpy (arg-max = first maximal index); GreedyDecoder (itertools.groupby) and the agreement of the two decoders are bounded only.',
 }
-
 CHECKS['C05'] = {
     'level': 'other',
     'technique': 'hybrid: deductive proof of the helper contracts of force_alignment.py (z3) + bounded run-time contract of force_align/align_text against brute force over all frame labelings',
